@@ -1,3 +1,4 @@
+import itertools
 import torch
 
 from ..domain import Domain, BoundaryDomain
@@ -192,16 +193,23 @@ class Rotate(Domain):
         # domain_bounds are in shape [x_min, x_max, y_min, y_max, ...]
         # both min and max have to be shifted by the same value
         domain_bounds = domain_bounds - translation_values
-        rotated_min = torch.matmul(rotation_matrix, domain_bounds[:, ::2].unsqueeze(-1))
-        rotated_min = rotated_min.squeeze(-1)
-        rotated_max = torch.matmul(
-            rotation_matrix, domain_bounds[:, 1::2].unsqueeze(-1)
-        )
-        rotated_max = rotated_max.squeeze(-1)
+        # every corner of the box has to be rotated, the extreme values give the new box
+        dim = self.space.dim
+        rotated_min, rotated_max = None, None
+        for corner_choice in itertools.product([0, 1], repeat=dim):
+            index = [2 * i + corner_choice[i] for i in range(dim)]
+            rotated_corner = torch.matmul(
+                rotation_matrix, domain_bounds[:, index].unsqueeze(-1)
+            ).squeeze(-1)
+            if rotated_min is None:
+                rotated_min, rotated_max = rotated_corner, rotated_corner
+            else:
+                rotated_min = torch.min(rotated_min, rotated_corner)
+                rotated_max = torch.max(rotated_max, rotated_corner)
         domain_bounds = torch.zeros(
             (len(rotated_min), 2 * self.space.dim), device=device
         )
-        domain_bounds[:, ::2] = torch.min(rotated_min, rotated_max)
-        domain_bounds[:, 1::2] = torch.max(rotated_min, rotated_max)
+        domain_bounds[:, ::2] = rotated_min
+        domain_bounds[:, 1::2] = rotated_max
         domain_bounds = domain_bounds + translation_values
         return domain_bounds.squeeze(0)
